@@ -192,8 +192,11 @@ def gen_reusable(seed, family="reuse"):
     use_timeout = rnd.random() < 0.6
     scen = {"kind": "reusable", "max_workers": 2, "timeout": 5 if use_timeout else None, "cpu_count": 2,
             "tasks": [gen_task(rnd, "plain") for _ in range(nt)], "family": family}
+    big = family == "reusebig"      # more workers than call-queue slots (2*cpu_count+1): the sentinel loop meets Full
+    if big:
+        scen["cpu_count"] = 1
     def call(first=False):
-        a = {"max_workers": rnd.choice([1, 2, 3, 4]), "timeout": 5 if use_timeout else None}
+        a = {"max_workers": rnd.choice([4, 5, 6, 2] if big else [1, 2, 3, 4]), "timeout": 5 if use_timeout else None}
         if not first:
             r = rnd.random()
             if r < 0.15:
@@ -216,7 +219,7 @@ def gen_reusable(seed, family="reuse"):
             sc.append(["submit", k])
             if rnd.random() < 0.45:
                 sc.append(call())
-        if rnd.random() < 0.2:
+        if rnd.random() < (0.7 if big else 0.2):
             sc.append(["shutdown", True, rnd.random() < 0.3])
             sc.append(call())
         users.append(sc)
